@@ -48,6 +48,7 @@ SESS = {
     "cross": [dict(name="I", role="init", key="A", eph="eI"), dict(name="R", role="resp", key="B", eph="eR"),
               dict(name="I2", role="init", key="B", eph="eI2"), dict(name="R2", role="resp", key="A", eph="eR2")],
 }
+NONE_SHAPES = ["rand", "empty", "zero", "short", "long"]
 WEAK = ["ihsig", "rhsig", "idsig", "early", "cansend", "replay", "parity"]
 
 # family -> (kind, cfg, sessions, settle)
@@ -156,9 +157,24 @@ def run_pipeline(tier, replay_behaviours=None):
             # hands it to every session (the monitors judge; no model prediction applies to the suffix)
             probe = b.get("probe", (not settle) and not fam.startswith("weak_"))
             rec = dict(id=bid, family=fam, settle=settle, probe=probe, sess=b.get("sess") or SESS[sessname], hist=b["hist"], msgs=b["msgs"])
+            # the symbolic signature term "none" (a field that proves nothing) has several concretisations; a
+            # verifier may treat them differently (absent field, zeros, wrong length): the shape rotates over the
+            # behaviours, and the scripts of the weakened signature checks (which continue where only a defective
+            # verifier lets them) are replayed once per shape
+            has_none = any(isinstance(m, dict) and m.get("sig") == "none" for m in b["msgs"])
+            if has_none:
+                rec["nonesig"] = b.get("nonesig") or NONE_SHAPES[bid % len(NONE_SHAPES)]
             allb[bid] = rec
             # three trace files of similar size so that validation runs as three TLC processes
             groups.setdefault(bid % 3, []).append(rec)
+            if has_none and fam in ("weak_ihsig", "weak_rhsig", "weak_idsig") and "nonesig" not in b:
+                for shape in NONE_SHAPES:
+                    if shape != rec["nonesig"]:
+                        bid += 1
+                        rec2 = dict(rec, id=bid, nonesig=shape)
+                        allb[bid] = rec2
+                        groups.setdefault(bid % 3, []).append(rec2)
+                        stats["behaviours"][fam] += 1
     violations = []
 
     def replay_validate(g, recs):
@@ -238,7 +254,7 @@ def check(pid, tier, replay=None):
     if replay:
         with open(replay) as f:
             rp = json.load(f)["payload"]["behaviour"]
-        rb = {rp["family"]: [dict(hist=rp["hist"], msgs=rp["msgs"], sess=rp["sess"], settle=rp["settle"], probe=rp.get("probe", False))]}
+        rb = {rp["family"]: [dict(hist=rp["hist"], msgs=rp["msgs"], sess=rp["sess"], settle=rp["settle"], probe=rp.get("probe", False), **({"nonesig": rp["nonesig"]} if rp.get("nonesig") else {}))]}
     extra = None
     if pid == "C02" and rb is None:
         # C02 spans session rotation: the channel pipeline runs too (AtMostOnce / Authentic across rekeys and restarts)
